@@ -350,6 +350,16 @@ func (a *ar) ret(r *ast.ReturnStmt, en env) string {
 			}
 		}
 	}
+	if a.fn == "tryDeleteFn" && len(r.Results) == 2 {
+		x, k := a.expr(r.Results[0], en)
+		e := "false"
+		if !isNil(r.Results[1]) {
+			e = "true"
+		}
+		if k == kI || k == kLit {
+			return "(" + a.toI(x, k) + ", " + e + ", cloudCalled_, k8sCalled_)"
+		}
+	}
 	if a.fn == "scaleUpFn" && len(r.Results) == 2 {
 		x, k := a.expr(r.Results[0], en)
 		e := "false"
